@@ -1,5 +1,6 @@
 import Gedcom.Model.Pages
 import Gedcom.Model.PagesStats
+import Gedcom.Model.PublishHistory
 import Driver.Util
 namespace Driver
 open Gedcom Gedcom.Living Gedcom.Pages
@@ -152,6 +153,28 @@ def handlePages (cmd : String) (rest : List String) : Option String :=
         some (" ".intercalate (files.map fun f => toHex f.1 ++ "=" ++ ",".intercalate (f.2.map showAtom)) ++
           s!" counts={badge},{c.statsTotal},{c.statsLiving},{c.statsDead},{c.eventsTotal}")
       | _, _ => some "bad-op"
+    | _ => some "bad-op"
+  | "c17history" =>
+    -- c17history <n> (<living bit> <surname>)* <m> (new | pub:<vis>)* : the surname set every publish of
+    -- the history is given (sorted), by the memo machine at the regenerated facts
+    let parse : P (List Person × List History.Op) := do
+      let ps ← pList (do
+        let l ← tok; let s ← pHex
+        pure (⟨⟨l == "1", .unknown⟩, { (default : Priv) with surname := s }⟩ : Person))
+      let ops ← pList (do
+        let t ← tok
+        if t == "new" then pure History.Op.new
+        else if t == "pub:show" then pure (History.Op.pub .show)
+        else if t == "pub:hide" then pure (History.Op.pub .hide)
+        else if t == "pub:placeholder" then pure (History.Op.pub .placeholder)
+        else failure)
+      pure (ps, ops)
+    match parse.run rest with
+    | some ((ps, ops), []) =>
+      let sets := History.run History.generatedHFlags generatedFlags ps [] ops
+      some (" | ".intercalate (sets.map fun s =>
+        let l := sortBy id s
+        " ".intercalate (toString l.length :: l.map toHex)))
     | _ => some "bad-op"
   | _ => none
 
